@@ -15,6 +15,8 @@ mod c10;
 mod c11;
 mod c12;
 mod c13;
+mod c20;
+mod fmtx;
 mod canon;
 mod common;
 mod enumr;
@@ -39,7 +41,7 @@ pub struct Check {
 }
 
 fn registry() -> Vec<Check> {
-	vec![c01::CHECK, c02::CHECK, c03::CHECK, c04::CHECK, c05::CHECK, c06::CHECK, c07::CHECK, c08::CHECK, c09::CHECK, c10::CHECK, c11::CHECK, c12::CHECK, c13::CHECK]
+	vec![c01::CHECK, c02::CHECK, c03::CHECK, c04::CHECK, c05::CHECK, c06::CHECK, c07::CHECK, c08::CHECK, c09::CHECK, c10::CHECK, c11::CHECK, c12::CHECK, c13::CHECK, c20::CHECK]
 }
 
 fn usage() -> ! {
@@ -58,6 +60,18 @@ fn main() {
 		for c in &reg {
 			println!("{}", c.id);
 		}
+		return;
+	}
+	if args[0] == "tree" {
+		// debugging aid: syntax tree of the formatter's parser and the formatter output
+		let text = args.get(1).cloned().unwrap_or_default();
+		let (parsed, errors) = jrsonnet_rowan_parser::parse(&text);
+		use jrsonnet_rowan_parser::AstNode;
+		println!("{:#?}", parsed.syntax());
+		for e in errors {
+			println!("error: {:?} at {:?}", e.error, e.range);
+		}
+		println!("{:?}", fmtx::fmt(&text, 2));
 		return;
 	}
 	if args[0] == "replay" {
